@@ -1,17 +1,17 @@
 #!/bin/sh
 # usage: muttest.sh <worktree> <patch.diff> <PROP> [PROP...]
-# apply a seeded change in a scratch worktree of /repo and run the quick checks against that tree, isolated from /repo
+# apply a seeded change in a scratch worktree of /repo and run the quick checks of a SNAPSHOT of /verif (at /tmp/vsnap,
+# refreshed by lib/mutsnap.sh) against that tree: isolated from /repo and from edits going on in /verif
 wt="$1"; patch="$2"; shift; shift
 cd "$wt" || exit 2
-git checkout -q -- . ; git clean -fdq
-git merge -q --ff-only main 2>/dev/null || git checkout -q --detach main
+git checkout -q -f --detach main; git clean -fdq
 if ! git apply "$patch" 2>/dev/null; then
-  if ! git apply --3way "$patch" >/dev/null 2>&1; then echo "PATCH DOES NOT APPLY: $patch"; exit 3; fi
+  if ! git apply --3way "$patch" >/dev/null 2>&1; then echo "PATCH DOES NOT APPLY: $patch"; git checkout -q -f --detach main; exit 3; fi
   git reset -q
 fi
 export VERIF_REPO="$wt" VERIF_WORK="/tmp/mutwork/$(basename $wt)"
 mkdir -p "$VERIF_WORK"
 for p in "$@"; do
-  (cd /verif && timeout 1500 ./check "$p" quick 2>&1 | grep -E "VIOLATION|KNOWN|seed=" | cut -c1-250)
+  (cd /tmp/vsnap && timeout 1500 ./check "$p" quick 2>&1 | grep -E "VIOLATION|KNOWN|seed=" | cut -c1-250)
 done
-git checkout -q -- . ; git clean -fdq
+git checkout -q -f --detach main; git clean -fdq
